@@ -41,6 +41,32 @@ def arm_line_exit(fn: Any, line: int, hit: int, exit_code: int = 137) -> None:
     mon.set_local_events(TOOL, code, mon.events.LINE)
 
 
+def arm_line_raise(fn: Any, line: int, hit: int, exc: type[BaseException] = KeyboardInterrupt) -> dict:
+    """Raise `exc` once, at the `hit`-th execution of `line` of `fn` (an interrupted run in a process that lives on)."""
+    mon = sys.monitoring
+    code = fn.__code__
+    state = {"n": 0, "raised": 0, "armed": True}
+    try:
+        mon.use_tool_id(TOOL, "verif-failpoint")
+    except ValueError:
+        pass
+
+    def on_line(c: Any, ln: int) -> Any:
+        if c is not code or ln != line:
+            return mon.DISABLE
+        if not state["armed"]:
+            return None
+        state["n"] += 1
+        if state["n"] == hit:
+            state["raised"] += 1
+            raise exc("injected at a failpoint")
+        return None
+
+    mon.register_callback(TOOL, mon.events.LINE, on_line)
+    mon.set_local_events(TOOL, code, mon.events.LINE)
+    return state
+
+
 def arm_byte_kill(fn: Any, hit: int, nbytes: int) -> None:
     """At the `hit`-th entry of `fn` limit the size of any file this process writes to `nbytes`
     and restore the default SIGXFSZ action, so the kernel kills the writer at exactly that size."""
